@@ -22,6 +22,13 @@ class Runner:
 
     def stop(self):
         if self.proc is not None:
+            if os.environ.get("VERIF_GRACEFUL_STOP") and self.proc.poll() is None:
+                # coverage measurement (tools/coverage.sh): let the process end by itself so that it writes its profile
+                try:
+                    self.proc.stdin.close()
+                    self.proc.wait(timeout=5)
+                except Exception:
+                    pass
             try:
                 self.proc.kill()
             except Exception:
